@@ -7,17 +7,16 @@ from ir import short
 from terms import cu, show, simp, subterms, is_const, FALSE
 
 
-def subst_pre(t, mapping):
-    """replace ('pre', 'self.f') by mapping['self.f']"""
+def subst_pre(t, mapping, lenmap=None):
+    """replace ('pre', 'self.f') of PARAMETER fields by their constructor value, and len(pre(buffer)) by the buffer's
+    constructor length. The pre-value of state fields and buffers is never substituted (that would hide an un-reset field)."""
     if not isinstance(t, tuple):
         return t
     if t and t[0] == "pre" and t[1] in mapping:
         return mapping[t[1]]
-    if t and t[0] == "len" and isinstance(t[1], tuple) and t[1][0] == "pre" and t[1][1] in mapping:
-        m = mapping[t[1][1]]
-        if isinstance(m, tuple) and m[0] == "fromelem":
-            return m[2]
-    return tuple(subst_pre(x, mapping) for x in t)
+    if t and t[0] == "len" and lenmap and isinstance(t[1], tuple) and t[1][0] == "pre" and t[1][1] in lenmap:
+        return lenmap[t[1][1]]
+    return tuple(subst_pre(x, mapping, lenmap) for x in t)
 
 
 def apply(F, S):
@@ -48,7 +47,8 @@ def apply(F, S):
             continue
         ex, st = r["exec"], r["state"]
         # facts: usize constructor parameters are non-zero on the Ok path
-        mapping = {"self." + f: t for f, t in init.items() if cls.get(f) in ("PARAM", "BUFFER")}
+        mapping = {"self." + f: t for f, t in init.items() if cls.get(f) == "PARAM"}
+        lenmap = {"self." + f: t[2] for f, t in init.items() if cls.get(f) == "BUFFER" and isinstance(t, tuple) and t[0] == "fromelem"}
         reads_by_reset = set(r["reads"])
         st.facts = dict(st.facts)
         for p, ty in c["params"]:
@@ -67,7 +67,7 @@ def apply(F, S):
             except symex.Unsupported as e:
                 S.bad("R2", "unrecognised-reset", key, "cannot read %s after reset: %s" % (key, e), loc(rfn.span))
                 continue
-            v = simp(subst_pre(v, mapping), st.facts)
+            v = simp(subst_pre(v, mapping, lenmap), st.facts)
             want = init.get(fname)
             if cl == "STATE":
                 if v == ("pre", "self." + fname) or _mentions_pre(v, "self." + fname):
